@@ -14,7 +14,8 @@ def cxAll (a b : Cx K) (r : K) : String :=
     pure (Cx.addAssignR a r), pure (Cx.subAssignR a r), pure (Cx.mulAssignR a r), Cx.divAssignR a r,
     pure (-a), pure (Cx.conj a), pure (a + 0), pure (a * 1)]
   let s := " ".intercalate (rs.map (wRes w))
-  s!"{s} {Wire.wr (Cx.absSqr a)} {wBool (a == b)} {Cx.cmp a b}"
+  let c := Cx.cmp a b
+  s!"{s} {Wire.wr (Cx.absSqr a)} {wBool (a == b)} {c} {wBool (a != b)} {wBool (c == 0)} {wBool (c == 0 || c == 1)} {wBool (c == 2)} {wBool (c == 2 || c == 1)}"
 
 def execCx (op : String) : P (Option String) := do
   match op with
